@@ -36,6 +36,7 @@ JOBQUEUE = {
             {"name": "random-jcsync", "args": ["jobqueue", "-mode", "random", "-seed", "{seed}", "-runs", "100", "-steps", "90", "-jcsync"]},
             {"name": "random-jobsfirst", "args": ["jobqueue", "-mode", "random", "-seed", "{seed}", "-runs", "150", "-steps", "90", "-jobsfirst"]},
             {"name": "random-fifo", "args": ["jobqueue", "-mode", "random", "-seed", "{seed}", "-runs", "200", "-steps", "90", "-fifo"]},
+            {"name": "random-statuslag", "args": ["jobqueue", "-mode", "random", "-seed", "{seed}", "-runs", "200", "-steps", "100", "-statuslag"]},
         ],
         "thorough": [
             {"name": "random", "args": ["jobqueue", "-mode", "random", "-seed", "{seed}", "-runs", "3000", "-steps", "110"]},
@@ -43,6 +44,7 @@ JOBQUEUE = {
             {"name": "random-storelag", "args": ["jobqueue", "-mode", "random", "-seed", "{seed}", "-runs", "1500", "-steps", "110", "-storelag"]},
             {"name": "random-jobsfirst", "args": ["jobqueue", "-mode", "random", "-seed", "{seed}", "-runs", "1500", "-steps", "110", "-jobsfirst"]},
             {"name": "random-fifo", "args": ["jobqueue", "-mode", "random", "-seed", "{seed}", "-runs", "2000", "-steps", "110", "-fifo"]},
+            {"name": "random-statuslag", "args": ["jobqueue", "-mode", "random", "-seed", "{seed}", "-runs", "2000", "-steps", "110", "-statuslag"]},
             {"name": "random-applied", "args": ["jobqueue", "-mode", "random", "-seed", "{seed}", "-runs", "1500", "-steps", "110", "-applied"]},
         ],
     },
@@ -60,7 +62,7 @@ def _jl_hcfg(**kw):
 
 JL_SIMS = {
     "a": _jl_hcfg(),
-    "b": _jl_hcfg(Strategy="AnySuccessful"),
+    "b": _jl_hcfg(Strategy="AnySuccessful", Hold=True),
     "c": _jl_hcfg(N=1, MaxAtt=3, Foreign=True),
     "d": _jl_hcfg(Forbid=True, JobPT=0),
     "e": _jl_hcfg(),
@@ -72,6 +74,18 @@ def _jl_sims(num):
             for k, v in sorted(JL_SIMS.items())]
 
 
+JL_GOALS = {
+    "a": _jl_hcfg(Strategy="AnySuccessful", Delay=0),
+    "b": _jl_hcfg(N=1, Delay=0, JobPT=1),
+    "c": _jl_hcfg(MaxAtt=1, Delay=0),
+}
+
+
+def _jl_goals(suffix):
+    return [{"module": "JobLife_Goal.tla", "cfg": "JobLife_Goal_%s.cfg" % k, "harness_cfg": v, "timeout": 300, "flags": ["-suffix", str(suffix)]}
+            for k, v in sorted(JL_GOALS.items())]
+
+
 def _jl_design(names, timeout):
     return [{"module": "JobLife_MC.tla", "cfg": "JobLife_MC_%s.cfg" % n, "timeout": timeout} for n in names]
 
@@ -81,9 +95,11 @@ JOBLIFE = {
     "vh": "joblife",
     "design": {
         "quick": _jl_design(["core", "foreign", "crash", "ext", "reject"], 600),
-        "thorough": _jl_design(["core", "kill0", "kill1", "fault", "del", "ext", "crash", "any2", "all2", "foreign", "forbid", "lagq", "reject"], 2400),
+        "thorough": _jl_design(["core", "kill0", "kill1", "fault", "del", "ext", "crash", "any2", "all2", "foreign", "forbid", "lagq", "reject", "hold", "rekill"], 2400),
     },
     "sim": {"quick": _jl_sims(12), "thorough": _jl_sims(400)},
+    # directed schedules: breadth-first search for goal states of JobLife_Goal.tla, replayed and continued with random steps
+    "goals": {"quick": _jl_goals(25), "thorough": _jl_goals(60)},
     "harness": {
         "quick": [
             {"name": "random-fresh", "args": ["joblife", "-mode", "random", "-seed", "{seed}", "-runs", "600", "-steps", "120", "-fresh"]},
@@ -247,7 +263,7 @@ FORMULAS = {
     "C04": ["C04_" + x for x in _PASS],
     "C05": ["C05_Admission"],
     "C06": ["C06_Fifo", "C06_EnqueueNeverRefused", "C06_AllowNeverRefused", "C06_RefusedOnlyAtLimit", "C06_NoStuck", "C06_CronForbid"],
-    "C07": ["C07_NotEarly", "C07_NotEarlyStep", "C07_IndependentStarts", "C07_RefusedOnlyWhenDue"],
+    "C07": ["C07_NotEarly", "C07_NotEarlyStep", "C07_IndependentStarts", "C07_DueStarts", "C07_RefusedOnlyWhenDue"],
     "C15": ["C15_Exact", "C15_Monotone", "C15_Covers"],
     "C08": ["C08_OneLive", "C08_Order", "C08_Delay", "C08_Gates"],
     "C09": ["C09_Keep", "C09_NotLost", "C09_NoForeignAdopt", "C09_AdmOnlyForeign", "C09_Listed", "C09_ForeignEnds"],
